@@ -62,7 +62,6 @@ type c20SphCfg struct {
 	steps    []time.Duration
 	maxMTU   int
 	flood    bool // "flood": send full packets (waiting for the pacer) until SendMode stops saying SendAny
-	maxTO    int  // loss-detection timeouts per history (0: unlimited)
 }
 
 type c20FH struct {
@@ -84,7 +83,6 @@ type c20SphInst struct {
 	mds      protocol.ByteCount
 	mtuN     int
 	sackN    int
-	toN      int
 	owed     int // probe allowance: 2 per timer expiry, -1 per probe packet sent, void after an ACK that newly acknowledges an ack-eliciting packet
 	nLost    int // callbacks seen during the current op
 	nAcked   int
@@ -179,7 +177,7 @@ func (in *c20SphInst) Ops() []explore.Op {
 			ops = append(ops, explore.Op{N: "ack", A: k})
 		}
 	}
-	if !in.h.GetLossDetectionTimeout().IsZero() && (c.maxTO == 0 || in.toN < c.maxTO) {
+	if !in.h.GetLossDetectionTimeout().IsZero() {
 		ops = append(ops, explore.Op{N: "timeout"})
 	}
 	if mode == SendPacingLimited {
@@ -319,7 +317,6 @@ func (in *c20SphInst) Apply(op explore.Op) *explore.Fail {
 		}
 		err := in.h.OnLossDetectionTimeout(in.now)
 		explore.Must(err == nil, "OnLossDetectionTimeout: %v", err)
-		in.toN++
 		in.owed += 2
 	case "advpace":
 		t := in.h.TimeUntilSend()
@@ -373,7 +370,7 @@ func (in *c20SphInst) Key() string {
 	var sb strings.Builder
 	base := int64(in.now)
 	sb.WriteString(canon.Dump(in.h, canon.Options{TimeBase: base, SkipField: c20SkipSph}))
-	fmt.Fprintf(&sb, "|mds=%d mtu=%d sack=%d to=%d owed=%d|", in.mds, in.mtuN, in.sackN, in.toN*min(in.cfg.maxTO, 1), in.owed)
+	fmt.Fprintf(&sb, "|mds=%d mtu=%d sack=%d owed=%d|", in.mds, in.mtuN, in.sackN, in.owed)
 	for _, pn := range in.sorted() {
 		p := in.led[pn]
 		fmt.Fprintf(&sb, "%d:%d@%d,", pn, p.size, int64(p.t)-base)
